@@ -410,6 +410,37 @@ class Interp(object):
             if isinstance(t, ast.Name):
                 for s in states:
                     s.frames[-1].pop(t.id, None)
+            elif isinstance(t, ast.Subscript) and isinstance(t.slice, ast.Slice) and t.slice.step is None:
+                # del lst[a:b] on a concrete list with constant bounds
+                nxt = []
+                for s in states:
+                    for (s1, k1, base) in self.eval(s, t.value):
+                        if k1 != "val":
+                            res.append((s1, k1, base))
+                            continue
+                        bounds = [(s1, [])]
+                        for part in (t.slice.lower, t.slice.upper):
+                            nb = []
+                            for (sb, acc) in bounds:
+                                if part is None:
+                                    nb.append((sb, acc + [None]))
+                                else:
+                                    for (s2, k2, v2) in self.eval(sb, part):
+                                        if k2 != "val":
+                                            res.append((s2, k2, v2))
+                                        else:
+                                            nb.append((s2, acc + [v2]))
+                            bounds = nb
+                        for (s2, (lo, hi)) in bounds:
+                            o = s2.obj(base) if isinstance(base, Ref) else None
+                            if o is None or o.kind != "list" or o.items is None or not all(b is None or (isinstance(b, int) and not isinstance(b, bool)) for b in (lo, hi)):
+                                raise Unsupported("del %s at %s" % (unparse(t), self.loc(node)))
+                            w = s2.wobj(base)
+                            w.items = list(w.items)
+                            del w.items[lo:hi]
+                            self.emit(s2, ("mutate", base.oid, s2.obj(base).label, "del"))
+                            nxt.append(s2)
+                states = nxt
             elif isinstance(t, ast.Subscript) and not isinstance(t.slice, ast.Slice):
                 nxt = []
                 for s in states:
